@@ -126,7 +126,7 @@ pub fn run<'tcx>(tcx: TyCtxt<'tcx>) -> String {
         keys.push(format!("{}:[{},{},{},{},{}]", jstr(&tcx.def_path(did).to_string_no_crate_verbose()), jstr(&key), public, jstr(&file), lo.line, hi.line));
     }
     let adtj: Vec<String> = adts.iter().map(|(k, v)| format!("{}:{}", jstr(k), v)).collect();
-    format!("{{\"bodies\":{},\"intoiter_access\":[{}],\"intoiter_structs\":{{{}}},\"fingerprints\":{{{}}},\"bodykeys\":{{{}}},\"debug_assert_bodies\":{{{}}}}}", bodies, rows.join(","), adtj.join(","), fps.join(","), keys.join(","), dbgs.join(","))
+    format!("{{\"bodies\":{},\"intoiter_access\":[{}],\"intoiter_structs\":{{{}}},\"fingerprints\":{{{}}},\"bodykeys\":{{{}}},\"debug_assert_bodies\":{{{}}},\"cfg_atoms\":[{}]}}", bodies, rows.join(","), adtj.join(","), fps.join(","), keys.join(","), dbgs.join(","), cfg_atoms(tcx).join(","))
 }
 
 /// strip crate-local numbering from Debug prints: `DefId(0:24 ~ vek[c083]::ops::X)` -> `DefId(vek::ops::X)`
@@ -251,4 +251,85 @@ fn debug_region_impurities<'tcx>(tcx: TyCtxt<'tcx>, body: &Body<'tcx>, sites: &[
         }
     }
     out
+}
+
+/// Inventory of configuration predicates: every `cfg(..)`, `cfg!(..)` and `cfg_attr(.., ..)` in the crate's own source files, lexed with
+/// rustc's lexer (comments and strings are tokens, never scanned), also inside `macro_rules!` bodies where they are not attributes yet.
+/// Each row: [file, line, form, atom] with atom = `name` or `name="value"`. The predicates are pre-expansion by nature; this is the one
+/// rule that reads tokens rather than the resolved program.
+fn cfg_atoms<'tcx>(tcx: TyCtxt<'tcx>) -> Vec<String> {
+    use rustc_lexer::{tokenize, FrontmatterAllowed, TokenKind};
+    let sm = tcx.sess.source_map();
+    let root = tcx.sess.local_crate_source_file().and_then(|f| f.local_path().map(|p| p.to_path_buf()));
+    let Some(root) = root else { return vec![] };
+    let dir = root.parent().map(|p| p.to_path_buf()).unwrap_or_default();
+    let mut rows = vec![];
+    for f in sm.files().iter() {
+        let name = format!("{}", f.name.prefer_local_unconditionally());
+        if !std::path::Path::new(&name).starts_with(&dir) {
+            continue;
+        }
+        let Some(src) = f.src.as_ref() else { continue };
+        let src: &str = src.as_str();
+        // significant tokens with their byte offsets
+        let mut toks: Vec<(TokenKind, usize, usize)> = vec![];
+        let mut off = 0usize;
+        for t in tokenize(src, FrontmatterAllowed::No) {
+            let len = t.len as usize;
+            match t.kind {
+                TokenKind::Whitespace | TokenKind::LineComment { .. } | TokenKind::BlockComment { .. } => {}
+                k => toks.push((k, off, len)),
+            }
+            off += len;
+        }
+        let line_of = |o: usize| src[..o].bytes().filter(|b| *b == b'\n').count() + 1;
+        let text = |i: usize| &src[toks[i].1..toks[i].1 + toks[i].2];
+        let mut i = 0;
+        while i < toks.len() {
+            if matches!(toks[i].0, TokenKind::Ident) && (text(i) == "cfg" || text(i) == "cfg_attr") {
+                let form0 = text(i).to_string();
+                let mut j = i + 1;
+                let mut form = form0.clone();
+                if j < toks.len() && matches!(toks[j].0, TokenKind::Bang) {
+                    form.push('!');
+                    j += 1;
+                }
+                if j < toks.len() && matches!(toks[j].0, TokenKind::OpenParen) {
+                    // walk to the matching parenthesis; for cfg_attr only the first argument is a predicate
+                    let mut depth = 0i32;
+                    let mut k = j;
+                    let line = line_of(toks[i].1);
+                    while k < toks.len() {
+                        match toks[k].0 {
+                            TokenKind::OpenParen => depth += 1,
+                            TokenKind::CloseParen => {
+                                depth -= 1;
+                                if depth == 0 {
+                                    break;
+                                }
+                            }
+                            TokenKind::Comma if depth == 1 && form0 == "cfg_attr" => break,
+                            TokenKind::Ident => {
+                                let n = text(k);
+                                let is_comb = (n == "all" || n == "any" || n == "not") && k + 1 < toks.len() && matches!(toks[k + 1].0, TokenKind::OpenParen);
+                                if !is_comb {
+                                    let mut atom = n.to_string();
+                                    if k + 2 < toks.len() && matches!(toks[k + 1].0, TokenKind::Eq) && matches!(toks[k + 2].0, TokenKind::Literal { .. }) {
+                                        atom = format!("{}={}", n, text(k + 2));
+                                        k += 2;
+                                    }
+                                    rows.push(format!("[{},{},{},{}]", jstr(&name), line, jstr(&form), jstr(&atom)));
+                                }
+                            }
+                            _ => {}
+                        }
+                        k += 1;
+                    }
+                    i = k;
+                }
+            }
+            i += 1;
+        }
+    }
+    rows
 }
